@@ -103,7 +103,12 @@ export async function checkSet(ctx, parsers, names0, cores, env, rng, cfg, overr
         if (!(dn in r.defs)) return { fault: { clause: "definition-missing", cause: "absent", detail: `${dn} (needed by ${n})`, seq }, judged };
         if (stable(r.defs[dn]) !== stable(dv)) {
           const empty = stable(r.defs[dn]) === "{}";
-          return { fault: { clause: empty ? "definition-empty" : "definition-differs-from-fresh-context", cause: dn.startsWith("Discriminated") ? "synthetic-variant" : "named", detail: `${dn}: shared ${stable(r.defs[dn]).slice(0, 300)} fresh ${stable(dv).slice(0, 300)}`, seq }, judged };
+          // attribution: do two FRESH contexts (one per parser) already give this name two different
+          // bodies? then two different unions were given one synthetic name (its hash looks through
+          // references), and the shared context merely kept the first of them
+          const bodies = new Set(names.filter((m) => dn in fresh.get(m).defs).map((m) => stable(fresh.get(m).defs[dn])));
+          const collide = dn.startsWith("Discriminated") && bodies.size > 1 ? "|two-unions-share-the-name-in-fresh-contexts" : "";
+          return { fault: { clause: empty ? "definition-empty" : "definition-differs-from-fresh-context", cause: (dn.startsWith("Discriminated") ? "synthetic-variant" : "named") + collide, detail: `${dn}: shared ${stable(r.defs[dn]).slice(0, 300)} fresh ${stable(dv).slice(0, 300)}`, seq }, judged };
         }
       }
       // and the schema returned for the parser itself
